@@ -14,7 +14,8 @@ SPEC = {
                 "PyMatterSim.static.vector:participation_ratio"],
     "must_reach": ["PyMatterSim.static.hessians:HessianMatrix.pair_matrix", "PyMatterSim.static.hessians:HessianMatrix.diagonalize_hessian"],
     "floors": {"hessian_vs_analytic": 5000, "fd_guard": 10, "symmetry": 60, "translations": 25, "frequencies": 60,
-               "eigenvectors": 60, "participation": 60, "unequal_mass_cases": 20, "three_d_cases": 20},
+               "eigenvectors": 60, "participation": 60, "unequal_mass_cases": 20, "three_d_cases": 20,
+               "unwrapped_coordinates_cases": 30, "attribute_reassigned": 15},
     "rule": ("{2D,3D} x {Lennard-Jones, inverse power law n in 6..12 with A, harmonic/Hertz alpha in {2,2.5,3} with r_c=sigma} x "
              "K 1..3 symmetric parameter matrices x equal/unequal masses x shift on/off x masks {periodic, partial, open} x "
              "N 4..30 x {orthogonal, triclinic}; non-trivial = at least N interacting pairs; distinct = digest of (positions, types, parameters)"),
@@ -93,10 +94,18 @@ def one_case(ctx, rng, der, wd, force3d=False, unequal=False):
     N = len(f)
     types = gc.make_types(rng, N, K)
     Kr = len(np.unique(types))
-    snap = gc.snapshot_from(cell, f, types)
     ppp = gc.random_mask(rng, d)
+    if rng.random() < 0.3 and ppp.any():
+        # unwrapped coordinates (xu dumps are kept as they are): particles whole cell vectors away from the primary cell along periodic axes --
+        # the same periodic configuration, so the same Hessian
+        f_given = f + rng.integers(-3, 4, size=f.shape) * ppp[None, :]
+        ctx.count("unwrapped_coordinates_cases")
+    else:
+        f_given = f
+    snap = gc.snapshot_from(cell, f_given, types)
     Hc = cell["H"]
-    vec, dist, _ = geom.pair_table(snap.positions, Hc, ppp)
+    pos_ref = cell["origin"] + f @ Hc      # the oracle works on the images inside the primary cell (its image search covers +-1 cell)
+    vec, dist, _ = geom.pair_table(pos_ref, Hc, ppp)
     dmin = float(np.min(dist + np.eye(N) * 1e9))
     if dmin < 0.55:
         return
@@ -147,7 +156,7 @@ def one_case(ctx, rng, der, wd, force3d=False, unequal=False):
         mass_map = mm_
         ctx.count("mass_dict_in_other_order")
     masses = np.array([mass_map[t] for t in types])
-    terms, margin = pair_terms(snap.positions, types, Hc, ppp, rc, model, par, shift, der)
+    terms, margin = pair_terms(pos_ref, types, Hc, ppp, rc, model, par, shift, der)
     if margin < 1e-6 or len(terms) == 0:
         ctx.skip("hessian_vs_analytic")
         return
@@ -180,6 +189,7 @@ def one_case(ctx, rng, der, wd, force3d=False, unequal=False):
             except OSError:
                 pass
     ok, _ = ctx.call(key, hm.diagonalize_hessian, ip, True, True, out, data=info)
+    reassign = ok and not int_params and (N * 7 + Kr + d) % 5 == 0
     ctx.check("parameters_untouched", np.array_equal(e_arg, eps_) and np.array_equal(s_arg, sig) and np.array_equal(r_arg, rc) and mass_map == hm.masses
               if hasattr(hm, "masses") else True, key + "/parameters_modified", "a parameter table was modified", info)
     ctx.case(f"{model}/{d}D/{'shift' if shift else 'noshift'}/{'uneq' if unequal_m else 'eq'}-mass/{cell['kind']}", snap.positions, types, eps_, sig, rc, shift, masses,
@@ -225,7 +235,7 @@ def one_case(ctx, rng, der, wd, force3d=False, unequal=False):
     # finite-difference guard of the oracle itself
     if N <= 12 and margin > 5e-3:
         h = 1e-4
-        x0 = snap.positions.copy()
+        x0 = pos_ref.copy()
         Hfd = np.zeros((N * d, N * d))
         for c in range(N * d):
             def g(sh):
@@ -239,6 +249,54 @@ def one_case(ctx, rng, der, wd, force3d=False, unequal=False):
     for ext in (".hessianmatrix.npy", ".evecs.npy", ".omega_PR.csv"):
         try:
             os.remove(out + ext)
+        except OSError:
+            pass
+    if reassign:
+        attribute_reassigned(ctx, rng, hm, ip, out, pos_ref, types, Hc, ppp, rc, model, par, shift, der, masses, Href, key, info)
+
+
+def attribute_reassigned(ctx, rng, hm, ip, out, pos_ref, types, Hc, ppp, rc, model, par, shift, der, masses, Href_old, key, info):
+    """history on one object: a public attribute holding a constructor argument (cut-offs; energy scales) is re-assigned and the object is
+    asked again (a cut-off / stiffness scan on one HessianMatrix).  Whether an implementation reads its parameters when constructed or
+    when called is not pinned by C11, so BOTH readings are accepted -- but the saved matrix must be the Hessian of the documented energy
+    for ONE consistent set of parameters, not a mixture of the two (pairs of one cut-off with the shift force of the other)."""
+    N, d = pos_ref.shape
+    which = "r_cuts" if model != "harmonic_hertz" else "epsilons"
+    if not hasattr(hm, which):
+        ctx.skip("attribute_reassigned")
+        return
+    par2, rc2 = dict(par), rc
+    if which == "r_cuts":
+        rc2 = rc * float(rng.uniform(0.8, 0.93))
+        new = rc2.copy()
+    else:
+        par2["eps"] = par["eps"] * float(rng.uniform(1.5, 3.0))
+        new = par2["eps"].copy()
+    terms2, margin2 = pair_terms(pos_ref, types, Hc, ppp, rc2, model, par2, shift, der)
+    if margin2 < 1e-6 or len(terms2) == 0:
+        ctx.skip("attribute_reassigned")
+        return
+    setattr(hm, which, new)
+    ok, _ = ctx.call(key + "/attribute_reassigned", hm.diagonalize_hessian, ip, False, True, out + "_re", data=info)
+    if not ok:
+        return
+    try:
+        Hs2 = np.load(out + "_re.hessianmatrix.npy")
+    except Exception as e:  # noqa: BLE001
+        ctx.violation(key + "/attribute_reassigned/files", f"no matrix saved: {e!r}", info())
+        return
+    Hnew = hessian_ref(N, d, terms2, masses)
+    scale = max(1e-300, float(np.abs(Hnew).max()), float(np.abs(Href_old).max()))
+    tol = 1e-9 * scale
+    e_new = float(np.abs(Hs2 - Hnew).max()) if Hs2.shape == Hnew.shape else np.inf
+    e_old = float(np.abs(Hs2 - Href_old).max()) if Hs2.shape == Href_old.shape else np.inf
+    ctx.check("attribute_reassigned", min(e_new, e_old) <= tol, key + "/attribute_reassigned",
+              lambda: f"after re-assigning {which} on the object the saved matrix is the Hessian neither of the new parameters (max dev {e_new:.3g}) "
+                      f"nor of the ones given at construction ({e_old:.3g}); scale {scale:.3g}",
+              lambda: {**info(), "attribute": which, "new_value": new})
+    for ext in (".hessianmatrix.npy", ".evecs.npy", ".omega_PR.csv"):
+        try:
+            os.remove(out + "_re" + ext)
         except OSError:
             pass
 
